@@ -274,6 +274,7 @@ class Sim:
                 self.now = nxt
             if self.now > self.cfg["max_time"] and not self.killed:
                 self.failure = "capped-time"
+                self.failure_info = self._stuck_info()
                 self._kill_all()
                 continue
             for t in self.tasks:
@@ -288,6 +289,7 @@ class Sim:
         self.seq += 1
         if self.seq > self.cfg["max_steps"] and not self.killed:
             self.failure = "capped-steps"
+            self.failure_info = self._stuck_info()
             self._kill_all()
         nxt = self._pick(prefer=me if (me is not None and me.state == "runnable") else None)
         if nxt is None:
